@@ -160,7 +160,8 @@ class Ghost:
             self.owed.pop(t[1], None)
             self.used.add(t[1])
             if t[2] != "ok":
-                self.live.pop(t[1], None)
+                if self.prev is not None and obs["acc"] < self.prev["acc"]:
+                    self.live.pop(t[1], None)      # rolled back
                 self.acceptfail = True
         elif t[0] == "ev":
             k = t[1]
@@ -175,12 +176,15 @@ class Ghost:
                 cancelled = [x[1] for x in calls if x[0] == "cancel"]
                 for x in cancelled:
                     self.owed.pop(x, None)
-                if any(x[0] == "accept" and x[1] == c for x in calls) and ok:
-                    self.owed[c] = {"phase": "accept", "peer": p, "addrs": []}
-                    self.live.setdefault(c, set()).add((p, d))
-                    for a in self.ledger:
-                        if a["carrier"] in cancelled:
-                            a["carrier"] = c
+                if any(x[0] == "accept" and x[1] == c for x in calls):
+                    if ok:
+                        self.owed[c] = {"phase": "accept", "peer": p, "addrs": []}
+                        self.live.setdefault(c, set()).add((p, d))
+                        for a in self.ledger:
+                            if a["carrier"] in cancelled:
+                                a["carrier"] = c
+                    else:
+                        self.live.pop(c, None)     # accept failed: rolled back
             elif k == "opened":
                 c = t[2]
                 self.used.add(c)
